@@ -108,11 +108,11 @@ def solve_sat(
     solution_limit: int = 1,
     luby_factor: int = 100,
 ) -> Result:
-    if not clauses:
+    assumptions = list(assumptions) if assumptions else []
+    if not clauses and not assumptions:
         return Result({}, 0, 0, 0)
 
     all_solutions: list[dict[int, bool]] = []
-    assumptions = list(assumptions) if assumptions else []
     clauses = [list(c) for c in clauses]
 
     # Find all variables
@@ -120,6 +120,8 @@ def solve_sat(
     for clause in clauses:
         for lit in clause:
             n_vars = max(n_vars, lit_var(lit))
+    for lit in assumptions:
+        n_vars = max(n_vars, lit_var(lit))
 
     if n_vars == 0:
         return Result({}, 0, 0, 0)
